@@ -61,6 +61,24 @@ CHECKS = {
         text="'Same result as an owning object' holds by construction if views and owning objects execute the same function bodies over the same coefficient accessor, and 'writes exactly RepSize scalars' if every access is statically bounded. The check proves these shape facts: the 32 Map specialisations derive from the same CRTP base as the owning class and declare only constructors, coeffs() and operator=; base code never names data_; traits of views equal the owning class's and DataType is a fixed-size Eigen::Map (672 static_asserts); every constant sub-view and internal raw view (asSO3, element<i>, SGal3::log) lies inside its buffer and is const-correct; every operator=/copy/move constructor (patterns and instantiations) only copies coefficients; every mutating API entry is rejected by the compiler on Map<const G> and const G&; C19 covers instantiation of every operation on views.",
         note="NOT decided: last-ulp differences between aligned owning and unaligned view operands (vectorisation paths). Trusted: clang front end, Eigen::Map semantics.",
     ),
+    "C15": dict(
+        level="other", design="3/C15",
+        technique="static analysis: must-pass-through rule on the structured AST, exact polynomial table (sympy over Q) extracted from smoothing_phi, term normalisation of interpolate_slerp",
+        text="Decides necessary structural clauses: the [0,1] range check raises before any other use of t in all three routines; interpolate() dispatches every enumerator and raises otherwise; for every supported degree the literal polynomial satisfies phi(0)=0, phi(1)=1, monotone on [0,1], flat ends, and other degrees raise (exact); interpolate_slerp normalises to A*exp(t*log(A^-1*B)). Does not decide end-point equalities of CUBIC/CNSMOOTH nor equivariance.",
+        note="Observed outside these rules: interpolate_cubic returns B at t=0 and A at t=1 (recorded in DESIGN.md, not a finding of this check).",
+    ),
+    "C16": dict(
+        level="other", design="3/C16",
+        technique="static analysis: must-pass-through / counted-loop / construction-discipline AST rules on the four averaging routines",
+        text="Decides: an emptiness check raises before the container is used; a singleton is returned before iterating; the only outer loop is bounded by max_iterations and every loop is a counted loop with unmodified counter and bound (termination within max_iterations*|points| group operations); elements are produced only through group operations. Does not decide stationarity, order independence, equivariance or convergence.",
+        note="Numerical clauses are out of reach of this technique family.",
+    ),
+    "C17": dict(
+        level="other", design="3/C17",
+        technique="static analysis: must-pass-through argument checks, counted-loop rule, guarded-unsigned-subtraction rule (syntactic linear facts from dominating checks) on decasteljau()",
+        text="Decides: the three argument checks precede all index arithmetic; every loop is a counted loop (termination given wrap-free bounds); every unsigned subtraction is dominated by a check, branch or loop condition (or a property precondition) that makes it non-negative. One genuine defect is reported as a known finding (closed-curve block). Does not decide window maximality, the index range of t*(degree-1)+n, or curve values.",
+        note="Exemption table with reasons in engine/check_c17.py. Known finding listed in known_findings.txt.",
+    ),
 }
 
 NOT_APPLICABLE = {
